@@ -383,3 +383,91 @@ pub fn default_ctor_strategy(whiches: &'static [u8]) -> BoxedStrategy<DcCase> {
         .prop_map(|(which, n, p, seed, a, b)| DcCase { which, n, p, seed, a, b })
         .boxed()
 }
+
+// ---------------------------------------------------------------- with_point_query_properties over its whole accepted domain
+
+#[derive(Clone, Debug, Serialize, Deserialize)]
+pub struct PqCase {
+    pub epsilon: f64,
+    pub delta: f64,
+    pub seed: u64,
+}
+
+/// Every (epsilon > 0, 0 < delta < 1) the constructor documents as accepted must give a usable sketch: at least one
+/// row and one column, and the C02-style exactness on a handful of elements.
+pub struct PqUsable;
+
+impl Check for PqUsable {
+    type Case = PqCase;
+    fn name(&self) -> &'static str {
+        "constructor_domain"
+    }
+    fn eval(&self, c: &PqCase) -> Verdict {
+        use crate::support::hashers::{GenBH, HKind};
+        let bh = GenBH(HKind::Seeded(c.seed % 1000));
+        let made = catch(|| CountMinSketch::<u64, u32, GenBH>::with_point_query_properties_and_hasher(c.epsilon, c.delta, bh));
+        let mut s = match made {
+            Ok(s) => s,
+            Err(p) => return fail(format!("cms-props-ctor-{}", panic_sig(&p)), format!("with_point_query_properties({:e}, {:e}) panicked on accepted input: {}", c.epsilon, c.delta, p)),
+        };
+        if s.w() < 1 || s.d() < 1 {
+            return fail("cms-props:empty-table", format!("with_point_query_properties({:e}, {:e}) gives w = {}, d = {}", c.epsilon, c.delta, s.w(), s.d()));
+        }
+        let keys: Vec<u64> = (0..6u64).map(|i| mix(c.seed, i)).collect();
+        let r = catch(|| -> Result<(), (String, String)> {
+            let mut total = 0u32;
+            for (i, x) in keys.iter().enumerate() {
+                for rep in 1..=(1 + i as u32 % 3) {
+                    let ret = s.add(x);
+                    total += 1;
+                    let q = s.query_point(x);
+                    if ret != q {
+                        return Err(("cms-props:add-return!=query_point".into(), format!("add returned {} but query_point gives {}", ret, q)));
+                    }
+                    if q < rep || q > total {
+                        return Err(("cms-props:bounds".into(), format!("query_point = {} after {} adds of the element ({} adds in total)", q, rep, total)));
+                    }
+                    if i == 0 && q != rep {
+                        return Err(("cms-props:single-element-not-exact".into(), format!("a stream with one distinct element added {} times is counted as {}", rep, q)));
+                    }
+                }
+            }
+            Ok(())
+        });
+        match r {
+            Err(p) => fail(format!("cms-props-use-{}", panic_sig(&p)), format!("sketch from with_point_query_properties({:e}, {:e}) (w = {}, d = {}) panicked in use: {}", c.epsilon, c.delta, s.w(), s.d(), p)),
+            Ok(Err((sig, msg))) => fail(sig, format!("{} [epsilon = {:e}, delta = {:e}, w = {}, d = {}]", msg, c.epsilon, c.delta, s.w(), s.d())),
+            Ok(Ok(())) => Verdict::Pass(
+                Info::new(true, hash_json(c))
+                    .class_if(c.epsilon >= 1.0, "epsilon>=1")
+                    .class_if(c.delta > 0.99, "delta_next_to_1")
+                    .class_if(c.delta < 1e-12, "delta_next_to_0")
+                    .class_if(s.w() == 1, "w=1")
+                    .class_if(s.d() == 1, "d=1"),
+            ),
+        }
+    }
+}
+
+pub fn pq_strategy() -> BoxedStrategy<PqCase> {
+    let eps = prop_oneof![
+        4 => (-6.0f64..0.5).prop_map(|e| 10f64.powf(e)),
+        2 => prop_oneof![Just(1.0f64), Just(2.0), Just(std::f64::consts::E), Just(2.7182818284), Just(2.7182818285), Just(3.0), Just(1e3), Just(1e10), Just(1e100), Just(f64::MAX)],
+        1 => (0.0f64..300.0).prop_map(|e| 10f64.powf(e)),
+        1 => (1i32..40).prop_map(|k| std::f64::consts::E / k as f64),
+    ];
+    let delta = prop_oneof![
+        4 => 0.001f64..0.999,
+        2 => prop_oneof![Just(1.0 - f64::EPSILON / 2.0), Just(1.0 - f64::EPSILON), Just(1.0 - 1e-12), Just(1.0 - 1e-9), Just(0.999999), Just(0.5), Just((-1.0f64).exp()), Just((-2.0f64).exp())],
+        2 => (1.0f64..300.0).prop_map(|e| 10f64.powf(-e)),
+        1 => Just(f64::MIN_POSITIVE),
+        1 => Just(5e-324),
+    ];
+    (eps, delta, any::<u64>())
+        .prop_map(|(epsilon, delta, seed)| {
+            // hundreds of rows times millions of columns would be gigabytes per case: wide or tall, not both
+            let epsilon = if delta < 1e-6 { epsilon.max(1e-3) } else { epsilon };
+            PqCase { epsilon, delta, seed }
+        })
+        .boxed()
+}
